@@ -124,7 +124,9 @@ class UMNDirHandler(DirHandler):
             if linkentry.selector in fileentriesdict:
                 if linkentry.gettype() == "X" or linkentry.gettype() == "-":
                     # It's special code to hide something.
-                    self.fileentries.remove(fileentriesdict[linkentry.selector])
+                    hidden = fileentriesdict[linkentry.selector]
+                    if any(e is hidden for e in self.fileentries):
+                        self.fileentries.remove(hidden)
                 else:
                     self.mergeentries(fileentriesdict[linkentry.selector], linkentry)
             else:
